@@ -95,3 +95,37 @@ pub fn adapter_op(g: &mut G) -> Option<Op> {
         _ => Some(Op::AdapterDrop(*g.rng.pick(&g.adapters.clone()))),
     }
 }
+
+fn subset(g: &mut G) -> Vec<u8> {
+    let mut v: Vec<u8> = (0..4u8).filter(|_| g.rng.chance(1, 2)).collect();
+    if v.is_empty() && g.rng.chance(3, 4) {
+        v.push(g.rng.below(4) as u8);
+    }
+    v
+}
+
+pub fn signal_op(g: &mut G) -> Option<Op> {
+    if g.sigsrc.is_empty() || g.rng.chance(1, 12) {
+        let id = g.fresh();
+        g.sigsrc.push(id);
+        let sigs = subset(g);
+        return Some(Op::SigNew { id, sigs, script: vec![] });
+    }
+    let id = *g.sigsrc.last().unwrap();
+    Some(match g.rng.below(16) {
+        0 | 1 => Op::SigAdd(id, subset(g)),
+        2 | 3 => Op::SigRemove(id, subset(g)),
+        4 | 5 | 6 => Op::SigSet(id, subset(g)),
+        7 => Op::Disable(id),
+        8 => Op::Enable(id),
+        9 => {
+            if g.rng.chance(1, 2) {
+                Op::Remove(id)
+            } else {
+                Op::DropDispatcher(id)
+            }
+        }
+        10 | 11 | 12 => Op::Dispatch(Timeout::Zero),
+        _ => Op::Raise(g.rng.below(4) as u8),
+    })
+}
